@@ -27,6 +27,9 @@
 
 //! DataFusion execution configuration and runtime structures
 
+#[cfg(datafusion_verif)]
+datafusion_common::verif_sync_shims!();
+
 mod async_stream;
 pub mod cache;
 pub mod config;
